@@ -67,6 +67,10 @@ func RunSpec(t *testing.T, spec core.Spec, keepLog bool) *core.Result {
 					// expected, see core.Ctx.TolerateLeak
 				} else if strings.Contains(msg, "deadlock") && res.Harness == "" {
 					res.Harness = "goroutines left blocked at the end of the bubble: " + msg
+					if os.Getenv("BSIM_DUMP") != "" {
+						buf := make([]byte, 1<<20)
+						fmt.Fprintf(os.Stderr, "%s\n", buf[:runtime.Stack(buf, true)])
+					}
 				} else if res.Harness == "" {
 					res.Harness = "panic outside tasks: " + msg
 				}
